@@ -313,8 +313,39 @@ pub fn clamp_boundary_pair(r: &mut Rng, sum: bool) -> (u128, u128) {
     if sum && r.chance(1, 2) { (b, a) } else { (a, b) }
 }
 
+/// Products that are an exact tie at 34 digits AND, once that tie is resolved, again an exact tie at the final (subnormal)
+/// quantum: P = R·10^k + T with k ≥ 2 digits below 10^emin and T = 5·10^(k-1) ± 5·10^i (…495, …505, …4950, …5050, …45, …55):
+/// rounding to 34 digits first and to the subnormal quantum afterwards differs from rounding once exactly here (the
+/// double-rounding repair of the z = 0 path of the fused multiply-add, which multiplication is).  Added after seeded change
+/// C01-5 (one of the saved midpoint indicators swapped in that repair) broke a proof obligation but produced no failing input.
+pub fn mul_double_tie_pair(r: &mut Rng) -> (u128, u128) {
+    for _ in 0..64 {
+        let k = 2 + r.below(5) as u32;                         // digits of the product below 10^emin
+        let i = r.below((k - 1) as u64) as u32;
+        let t = if r.chance(1, 2) { 5 * pow10(k - 1) + 5 * pow10(i) } else { 5 * pow10(k - 1) - 5 * pow10(i) };
+        let yc = *r.pick(&[5u128, 2, 25, 4, 125, 8, 50, 20, 1]);
+        if t % yc != 0 || pow10(k) % yc != 0 { continue; }
+        // 35 ..= 34 + k digits in the product, so that a first rounding to 34 digits happens and drops fewer than k digits
+        let q = 35 + r.below(k as u64) as u32;
+        let rd = q - k;                                        // digits of the kept part R (≤ 34)
+        if rd == 0 || rd > 34 { continue; }
+        let rc = coeff(r, rd);
+        if rc == 0 { continue; }
+        // P may not fit u128 as a whole (up to 40 digits); x = P / yc = R·(10^k / yc) + T / yc
+        let xc = match rc.checked_mul(pow10(k) / yc).and_then(|v| v.checked_add(t / yc)) { Some(v) => v, None => continue };
+        if xc >= P34 { continue; }
+        let rr = r.below(12) as i32;
+        let (ex, ey) = (EMIN + rr, -(k as i32) - rr);
+        if ey < EMIN { continue; }
+        let (a, b) = (enc(r.chance(1, 2), xc, ex), enc(r.chance(1, 2), yc, ey));
+        return if r.chance(1, 2) { (a, b) } else { (b, a) };
+    }
+    let (x, y, _) = fma_subnormal_product_triple(r); (x, y)
+}
+
 pub fn mul_pair(r: &mut Rng) -> (u128, u128) {
     if r.chance(1, 10) { return clamp_boundary_pair(r, true); }
+    if r.chance(1, 12) { return mul_double_tie_pair(r); }
     match r.below(8) {
         6 | 7 => { let (x, y, _) = fma_subnormal_product_triple(r); (x, y) }
         0 => { // products that end exactly on a tie
